@@ -31,4 +31,10 @@ PROPS = {
         assumptions=['sync.Mutex / sync.Cond / context.AfterFunc semantics as modelled (critical sections without Wait are atomic; Signal wakes one waiter, Broadcast all; AfterFunc runs in its own goroutine after cancellation)',
                      'AfterFunc un-registration on return is not modelled (superset of behaviours)'],
     ),
+    'C11': dict(
+        coq=['Props/C11', 'Run/C11Run'],
+        go=[dict(run='^TestVF_C11$'), dict(run='^TestVF_C11Send$')],
+        trusted_base=['hand-written models Model/Wire.v (protobuf sizes) and Model/Split.v (RPC.split, sendRPC filter); harness printer of pb structs as Gallina terms (identity by pointer / unique id strings)'],
+        assumptions=['identity of IHAVE topics is the *string pointer, as in the code', 'XXX_unrecognized bytes only modelled inside published messages'],
+    ),
 }
